@@ -129,7 +129,8 @@ def explore(ctx):
         if it % 6 == 2 and len(sc['files']) > 1:
             sc['symlinked'] = sc['files'][-1][0]      # the user reaches this test case through a symbolic link (absolute target)
         if it % 9 == 4:
-            sc['copy_fault'] = rnd.randint(2, 9)      # a copy into a test directory fails half-way (full /tmp)
+            sc['copy_fault'] = rnd.randint(2, 9)      # a copy into a test directory fails (full /tmp: ENOSPC; refused: EACCES / EPERM)
+            sc['copy_fault_errno'] = rnd.choice([28, 13, 1])
         o = scenario_case(ctx, sc)
         if o.diverged:
             continue
